@@ -13,6 +13,41 @@ int msg_of_payload(const std::string& p) {
 }
 }
 
+
+namespace {
+// conditions that single out the known inbound-QoS defects (known_findings.json): the exchange of a message spanned a
+// connection loss, or an acknowledgement of the client for it travelled in a write that was reported as failed
+struct MsgHistory { bool multi_conn = false; bool ack_write_error = false; bool publish_retransmitted = false; };
+MsgHistory history_of(Sim& s, const bk::OutMsg& m) {
+    MsgHistory h;
+    std::set<int> conns;
+    for (int si : m.publish_idx) if (s.broker.sent[si].seq) conns.insert(s.broker.sent[si].conn);
+    for (int si : m.pubrel_idx) if (s.broker.sent[si].seq) conns.insert(s.broker.sent[si].conn);
+    h.multi_conn = conns.size() >= 2;
+    h.publish_retransmitted = m.sends >= 2;
+    for (auto& r : s.broker.recv) {
+        if (!r.decode_err.empty() || r.pkt.pid != m.pid || m.pid == 0) continue;
+        if (r.pkt.type != PUBACK && r.pkt.type != PUBREC && r.pkt.type != PUBCOMP) continue;
+        if (r.seq < m.first_send_seq) continue;
+        if (!conns.count(r.conn)) continue;
+        if (r.group) { auto& g = s.net.groups[r.group - 1]; if (!g.done || g.result) h.ack_write_error = true; }
+    }
+    // a connection that carried part of the exchange died by a fault
+    for (int c : conns) { auto* nc = s.net.conn(c); if (nc && (nc->transport_fault || nc->dead)) h.multi_conn = h.multi_conn || conns.size() >= 1 && nc->transport_fault; }
+    // an older QoS 2 exchange with the same packet identifier was cut short (session dropped by the broker or connection
+    // lost): the client may still hold its state and confuse the two exchanges
+    for (auto& o : s.broker.msgs) {
+        if (o.id >= m.id || o.qos != 2 || o.pid != m.pid || m.pid == 0) continue;
+        std::set<int> oc;
+        for (int si : o.publish_idx) if (s.broker.sent[si].seq) oc.insert(s.broker.sent[si].conn);
+        bool cut = o.session_lost || oc.size() >= 2;
+        for (int c : oc) { auto* nc = s.net.conn(c); if (nc && nc->transport_fault) cut = true; }
+        if (cut) h.multi_conn = true;
+    }
+    return h;
+}
+}
+
 // ------------------------------------------------------------------ C04
 void Ctx::c04() {
     if (hostile_run) return;
@@ -67,7 +102,7 @@ void Ctx::c04() {
     std::sort(delivs.begin(), delivs.end(), [](const Deliv& a, const Deliv& b) { return a.seq < b.seq; });
     for (auto& [id, n] : count) {
         auto& m = B.msgs[id];
-        if (m.qos == 2 && n > 1) fail("C04", "qos2_delivered_twice", "QoS 2 message " + std::to_string(id) + " (" + m.topic + ") handed to the application " + std::to_string(n) + " times");
+        if (m.qos == 2 && n > 1) fail("C04", history_of(s, m).publish_retransmitted ? "qos2_delivered_twice_after_dup_retransmission" : "qos2_delivered_twice", "QoS 2 message " + std::to_string(id) + " (" + m.topic + ") handed to the application " + std::to_string(n) + " times");
         if (m.qos == 0 && n > 1) fail("C04", "qos0_delivered_twice", "QoS 0 message " + std::to_string(id) + " handed to the application " + std::to_string(n) + " times");
     }
     // order of first deliveries per QoS level == order of first sends
@@ -77,7 +112,7 @@ void Ctx::c04() {
             auto& m = B.msgs[d.msg];
             if (m.qos != q || !seen.insert(d.msg).second) continue;
             if (m.first_send_seq < last_first_send)
-                fail("C04", "order_within_qos", "QoS " + std::to_string(q) + " message " + std::to_string(d.msg) + " (first sent at seq " + std::to_string(m.first_send_seq) +
+                fail("C04", (history_of(s, m).multi_conn || history_of(s, B.msgs[last_msg]).multi_conn || m.sends >= 2 || B.msgs[last_msg].sends >= 2) ? "order_within_qos_after_connection_loss" : "order_within_qos", "QoS " + std::to_string(q) + " message " + std::to_string(d.msg) + " (first sent at seq " + std::to_string(m.first_send_seq) +
                      ") was delivered after message " + std::to_string(last_msg) + " (first sent at seq " + std::to_string(last_first_send) + ")");
             if (m.first_send_seq >= last_first_send) { last_first_send = m.first_send_seq; last_msg = d.msg; }
         }
@@ -102,10 +137,11 @@ void Ctx::c04() {
         for (int si : m.publish_idx) if (B.sent[si].delivered_seq && !B.sent[si].hostile) delivered = true;
         if (!delivered) continue;
         int n = count.count(m.id) ? count[m.id] : 0;
+        MsgHistory mh = history_of(s, m);
         if (m.qos == 2 && n != 1)
-            fail("C04", "qos2_not_delivered", "QoS 2 message " + std::to_string(m.id) + " (" + m.topic + ") was delivered to the client but reached async_receive " + std::to_string(n) + " times by the end of the healed suffix");
+            fail("C04", n > 1 ? "qos2_delivered_more_than_once" : (mh.multi_conn || mh.ack_write_error) ? "qos2_lost_across_connection_loss" : "qos2_not_delivered", "QoS 2 message " + std::to_string(m.id) + " (" + m.topic + ") was delivered to the client but reached async_receive " + std::to_string(n) + " times by the end of the healed suffix");
         if (m.qos == 1 && n < 1)
-            fail("C04", "qos1_not_delivered", "QoS 1 message " + std::to_string(m.id) + " (" + m.topic + ") was delivered to the client but never reached async_receive");
+            fail("C04", mh.ack_write_error ? "qos1_dropped_after_ack_write_error" : mh.multi_conn ? "qos1_lost_across_connection_loss" : "qos1_not_delivered", "QoS 1 message " + std::to_string(m.id) + " (" + m.topic + ") was delivered to the client but never reached async_receive");
         if (m.qos > 0 && (m.st == bk::OutMsg::sent || m.st == bk::OutMsg::pubrecd)) {
             // broker still waits for an acknowledgement although its last transmission was delivered long ago
             uint64_t last_deliv = 0; ns_t last_t = 0;
@@ -114,7 +150,8 @@ void Ctx::c04() {
             bool last_is_current = false;
             if (auto* c = B.current()) for (int si : c->sent) if (B.sent[si].msg == m.id && B.sent[si].delivered_seq) last_is_current = true;
             if (last_is_current && s.suffix_end_t - last_t > 60 * SEC)
-                fail("C04", m.st == bk::OutMsg::pubrecd ? "pubrel_unanswered" : "publish_unacknowledged",
+                fail("C04", m.st == bk::OutMsg::pubrecd ? (mh.multi_conn ? "retransmitted_pubrel_unanswered" : "pubrel_unanswered")
+                                                          : (mh.multi_conn ? "retransmitted_publish_unacknowledged" : "publish_unacknowledged"),
                      std::string(m.st == bk::OutMsg::pubrecd ? "PUBREL" : "PUBLISH") + " pid " + std::to_string(m.pid) + " of message " + std::to_string(m.id) +
                      " was delivered on the current connection " + std::to_string((s.suffix_end_t - last_t) / SEC) + " s ago and never acknowledged");
         }
@@ -205,7 +242,17 @@ void Ctx::c10() {
         for (auto& c : s.net.conns) if (c->seq_begin > from && c->seq_begin < to) v.push_back(c->id);
         return v;
     };
-    auto handshaken = [&](int ci) { auto* bc = B.bc(ci); return bc && bc->connack_sent_idx >= 0 && B.sent[bc->connack_sent_idx].delivered_seq != 0; };
+    // handshake complete from the client's point of view: the successful CONNACK was delivered AND processed (logged)
+    // before the client gave the stream up (a stall can make the 5 s handshake timer win although the bytes had arrived)
+    auto handshaken = [&](int ci) {
+        auto* bc = B.bc(ci);
+        if (!bc || bc->connack_sent_idx < 0 || !B.sent[bc->connack_sent_idx].delivered_seq) return false;
+        uint64_t d = B.sent[bc->connack_sent_idx].delivered_seq;
+        auto& nc = *s.net.conns[ci];
+        uint64_t end = nc.client_closed ? nc.client_close_seq : UINT64_MAX;
+        for (auto& l : s.logs) if (l.k == LogRec::connack && l.rc == 0 && l.seq >= d && l.seq <= end) return true;
+        return false;
+    };
     int wraps_in_streak = 0; int last_success_host = -1; bool k_known = true;
     for (size_t i = 0; i < rl.size(); ++i) {
         int h = s.host_of(rl[i].host);
@@ -224,7 +271,7 @@ void Ctx::c10() {
         auto cs = conns_of(i);
         if (multi_gen_active(rl[i].seq, i + 1 < rl.size() ? rl[i + 1].seq : rl[i].seq + 1)) { wraps_in_streak = 0; last_success_host = -1; k_known = false; continue; }
         ns_t r_elapsed = rl[i].seq_done ? rl[i].t_done - rl[i].t : 0;
-        bool r_unknown = !rl[i].seq_done || r_elapsed == 5 * SEC || stall_between(rl[i].seq, rl[i].seq_done) > 0;   // raced the 5 s resolve timer
+        bool r_unknown = !rl[i].seq_done || r_elapsed == 5 * SEC || stall_between(rl[i].seq, i + 1 < rl.size() ? rl[i + 1].seq : rl[i].seq_done + 50) > 0;   // raced the 5 s resolve timer
         if (r_unknown) { wraps_in_streak = 0; k_known = false; continue; }
         bool usable = !rl[i].decision.ec && r_elapsed < 5 * SEC;
         if (!usable && !cs.empty() && !boundary_between(rl[i].seq, s.net.conns[cs[0]]->seq_begin))
@@ -345,6 +392,12 @@ void Ctx::c12() {
         ns_t alive_until = s.suffix_end_t; uint64_t alive_seq = s.suffix_end_seq;
         if (nc.client_closed && nc.client_close_time < alive_until) { alive_until = nc.client_close_time; alive_seq = nc.client_close_seq; }
         if (nc.dead && nc.t_dead < alive_until) { alive_until = nc.t_dead; alive_seq = nc.seq_dead; }
+        if (nc.client_shutdown && nc.client_close_time < alive_until) { alive_until = nc.client_close_time; alive_seq = nc.client_close_seq; }
+        // the client itself gives the connection up (DISCONNECT written: sentry, malformed packet, ...)
+        for (int ri : recv_by_conn[ci]) {
+            auto& r = B.recv[ri];
+            if (r.decode_err.empty() && r.pkt.type == DISCONNECT && r.first_group) { auto& g = s.net.groups[r.first_group - 1]; if (g.t_start < alive_until) { alive_until = g.t_start; alive_seq = g.seq_start; } }
+        }
         if (nc.broker_closed && nc.t_broker_closed && nc.t_broker_closed < alive_until) alive_until = nc.t_broker_closed;   // from then on the connection is going down
         for (auto& m : s.marks)
             if ((m.kind == MarkKind::cancel_client || m.kind == MarkKind::disconnect_init || m.kind == MarkKind::destroy || (m.kind == MarkKind::op_cancel && m.arg == 1)) &&
@@ -431,6 +484,8 @@ void Ctx::c13() {
         bool drained = gen == final_gen && s.teardown_done && !s.budget_exhausted && s.running_at_drain;
         int amb = ambiguous.count(gen) ? ambiguous[gen] : 0;
         if (amb) drained = false;
+        // a terminal per-operation cancellation closes the service; async_run on it resets the receive channel and drops what was buffered
+        for (auto& m : s.marks) if (m.kind == MarkKind::op_cancel && m.arg == 1 && m.svc_gen == gen) drained = false;
         if (observed > expected + amb)
             fail("C13", "session_expired_too_often", "service generation " + std::to_string(gen) + ": " + std::to_string(observed) + " session_expired reports for " + std::to_string(expected) +
                  " reconnects with Session Present 0 after a successful subscribe");
